@@ -139,6 +139,19 @@ def x9(ctx, tab, sites, scc=()):
             where = '%s/%s:%s' % (crate, fl, arg.get('l') or call.get('l'))
             r.inst(key, {'call': '%s -> %s' % (caller, callee), 'param': pn, 'argument': sx.render(arg)[:40], 'class': kind}
                    if n % 7 == 1 else None)
+            if kind == 'same' and (what in DEPTH or what in ('strip_comments', 'ignore_include', 'allow_incomplete')) and what in names:
+                # ... nor if the parameter is changed in place (`include_depth += 1;`): a counter bumped in place is never restored when the nested
+                # run returns, so it counts the directives seen so far instead of the nesting depth; a flag assigned in place is no longer the caller's
+                muts_ = [nn for nn in sx.walk(fn['body']) if nn.get('k') in ('assign', 'binary') and str(nn.get('op', '=')).endswith('=')
+                         and nn.get('op') not in ('==', '<=', '>=', '!=') and sx.is_path(nn.get('l_', {}), what) and (nn.get('l') or 0) <= (call.get('l') or 0)]
+                if muts_:
+                    r.fail(key + ':mutated', '%s/%s:%s' % (crate, fl, muts_[0].get('l')),
+                           '%s changes its parameter `%s` in place (`%s`) and hands it to %s: %s' %
+                           (caller, what, sx.render(muts_[0])[:40], callee,
+                            'the counter is not restored when the nested run returns, so it counts the directives processed so far, not the nesting depth — a flat file with many '
+                            'includes / usages hits the limit' if what in DEPTH else 'the callee does not receive the value the caller was given'),
+                           {'caller': caller, 'callee': callee, 'param': pn})
+                    continue
             if kind == 'same':
                 # the caller's own value: not if the name was re-bound to something else before the call
                 if caller not in rebinds:
